@@ -65,6 +65,19 @@ def regular_segments(p):
     return out
 
 
+def overshoot_segments(p):
+    """Straight segments of degree p >= 3 whose interior control points overshoot the end
+    point (the box is longer than the curve); regular: x'(t) > 0.  Built by degree-elevating
+    the cubic with abscissae 0, 4, 2.5, 3.5 and placed on the generic line y = 0.3 x + 0.2."""
+    if p < 3:
+        return []
+    xs = [F(0), F(4), F(5, 2), F(7, 2)]
+    while len(xs) - 1 < p:
+        n = len(xs) - 1
+        xs = [xs[0]] + [F(i, n + 1) * xs[i - 1] + (1 - F(i, n + 1)) * xs[i] for i in range(1, n + 1)] + [xs[-1]]
+    return [("overshoot", [(float(x), float(F(3, 10) * x + F(1, 5))) for x in xs])]
+
+
 def cases(tier, seed):
     return [{"id": "degree%d" % p, "degree": p} for p in range(1, 7)] + [{"id": "sequence", "sequence": True}]
 
@@ -226,7 +239,7 @@ def _run_degree(spec):
             if st != "ok" or len(pieces) != 2 or any(abs(rg.ex(pieces[1](F(1, 2))[i]) - rg.bez_eval(rref, F(2, 3))[i]) > tol for i in (0, 1)):
                 fail(name, "invert-split", "after invert(), split(1/3) does not retrace the reversed segment")
     # point on curve and winding for regular float segments
-    for name, ctrl in (regular_segments(p)[:1] if quick_only else regular_segments(p)):
+    for name, ctrl in (regular_segments(p)[:1] if quick_only else regular_segments(p) + overshoot_segments(p)):
         seg = lib.PlanarCurve(ctrl)
         ref = [(rg.ex(x), rg.ex(y)) for x, y in ctrl]
         d1 = rg.bez_deriv(ref)
@@ -254,6 +267,22 @@ def _run_degree(spec):
                     fail(name, "off-curve", "point %s at distance %g from segment(%s) is reported `in` the segment" % (o, abs(off), t))
                     break
                 hist["off-curve"] = hist.get("off-curve", 0) + 1
+        # points beyond the two ends, along the tangents: off the curve although they may be
+        # inside the control box
+        for tpar, sign in ((F(0), -1), (F(1), 1)):
+            q = rg.bez_eval(ref, tpar)
+            tx, ty = rg.bez_eval(d1, tpar)
+            ln = math.hypot(float(tx), float(ty))
+            for dist in (1e-2, 0.1, 0.3):
+                o = (float(q[0]) + sign * dist * float(tx) / ln, float(q[1]) + sign * dist * float(ty) / ln)
+                if rg.point_near_curve((F(o[0]), F(o[1])), [ref], F(3, 10**6)):
+                    continue
+                st, v = call_limited(lambda: o in seg, 60)
+                evals += 1
+                if st != "ok" or v is not False:
+                    fail(name, "beyond-end", "point %s at %g beyond the end t=%s of the segment is reported `in` it" % (o, dist, tpar))
+                    break
+                hist["beyond-end"] = hist.get("beyond-end", 0) + 1
         # after invert(): points of the curve are still `in` it, the area integral flips sign
         a0 = lib.IntegratePlanar.area(seg)
         seg.invert()
